@@ -84,3 +84,28 @@ package dochandler
 //   C20 glue: the operation is parsed by the parser of the requested version and queued under that version's genesis time
 //@   ensures added == old(added) + 1 ==> verOK(r.protocol, protocolVersion) && parseOK2(parserOf(verOf(r.protocol, protocolVersion)), r.namespace, operationBuffer) && lastAddedVersion == genesisOf(verOf(r.protocol, protocolVersion))
 //@   modifies uStored, uDeleted, lastPutOp, lastDelOp, added, lastAddedSuffix, lastAddedVersion, lastResolved
+
+// ---- C19 / C20: the transformation info handed to the document transformer ----
+// published documents: id as requested, published = true, canonical id <namespace>[:<canonical ref>]:<suffix>, and the
+// equivalent ids = canonical id followed by one id per equivalent reference, in order
+//@ func GetTransformationInfoForPublished
+//@   requires internalResult != nil
+//@   loop 1
+//@     invariant ti != nil && fresh(ti) && framed() && "published" in ti && ti["published"] == boxed(true) && "id" in ti && ti["id"] == boxed(id) && "canonicalId" in ti && ti["canonicalId"] == boxed(canonicalID) && len(equivalentIDs) == 1 + _k && equivalentIDs[0] == canonicalID
+//@     invariant forall q int :: 0 <= q && q < _k ==> equivalentIDs[1 + q] == namespace + ":" + internalResult.EquivalentReferences[q] + ":" + suffix
+//@   ensures result != nil && fresh(result) && "published" in result && result["published"] == boxed(true) && "id" in result && result["id"] == boxed(id)
+//@   ensures "canonicalId" in result && result["canonicalId"] == boxed(namespace + cond(internalResult.CanonicalReference != "", ":" + internalResult.CanonicalReference, "") + ":" + suffix)
+//@   ensures "equivalentId" in result && isType(result["equivalentId"], "[]string") && len(unbox(result["equivalentId"], "[]string")) == 1 + len(internalResult.EquivalentReferences) && boxed(unbox(result["equivalentId"], "[]string")[0]) == result["canonicalId"]
+//@   ensures forall q int :: 0 <= q && q < len(internalResult.EquivalentReferences) ==> unbox(result["equivalentId"], "[]string")[1 + q] == namespace + ":" + internalResult.EquivalentReferences[q] + ":" + suffix
+//
+//@ func GetTransformationInfoForUnpublished
+//@   ensures result != nil && fresh(result) && "published" in result && result["published"] == boxed(false) && "id" in result && isType(result["id"], "string") && !("canonicalId" in result)
+//
+//@ func GetHint
+//@ func getSuffix
+//
+//@ func (*DocumentHandler).resolveRequestWithID
+//@   requires dhOK(r) && r.processor != nil && pv != nil
+//@   modifies lastResolved
+//@ func (*DocumentHandler).resolveRequestWithInitialState
+//@   requires dhOK(r) && pv != nil
